@@ -535,19 +535,24 @@ def refs_run(r, cfg):
     return ts, cfg
 
 
-def chain_run(r, cfg):
-    """the reference chains / cascades of C05 (vp.props.c05.chain_case) as a model-corresponded run"""
-    from vp.props import c05
-    cfg = dict(cfg)
-    cfg["ns"] = [tuple(x) for x in cfg["ns"]]
-    ts = c05.chain_case(r, cfg)
-    text = cfg.pop("_shape_map")
+def smap_from_text(cfg, text):
+    """cfg['smap'] for a fixed-syntax shape map made of lines '<node>@<label>' / '<node>@prefix:local'"""
     items = []
     for line in text.split("\n"):
         a, b = line.rsplit("@", 1)
         lab = ["A", b[1:-1]] if b.startswith("<") else ["P"] + b.split(":", 1)
         items.append([["node", ["A", a[1:-1]]], lab])
     cfg["smap"] = {"fmt": "fsm", "text": text, "pairs": None, "tau": None, "items": items, "answers": {}}
+    return cfg
+
+
+def chain_run(r, cfg):
+    """the reference chains / cascades of C05 (vp.props.c05.chain_case) as a model-corresponded run"""
+    from vp.props import c05
+    cfg = dict(cfg)
+    cfg["ns"] = [tuple(x) for x in cfg["ns"]]
+    ts = c05.chain_case(r, cfg)
+    smap_from_text(cfg, cfg.pop("_shape_map"))
     return ts, cfg
 
 
@@ -609,3 +614,123 @@ def note_case(fname, cfg):
     for sel, lab in sm["items"]:
         STATS["selector:%s" % sel[0]] += 1
         STATS["label:%s" % ("prefixed" if lab[0] == "P" else "full")] += 1
+
+
+# --------------------------------------------------------------------------
+# streams of the properties
+# --------------------------------------------------------------------------
+
+def stream(tier, rnd, n_quick, n_thorough, only_iri=False, sparql=True, or_rate=0.3, grid=False):
+    """cases of the shape-map stream: one run each, or (grid) one run per threshold of a grid"""
+    n = n_thorough if tier == "thorough" else n_quick
+    cases = []
+    for i in range(n):
+        r = random.Random(rnd.getrandbits(48))
+        ts, cfg, fam = gen_run(r, i, only_iri=only_iri, sparql=sparql, or_rate=or_rate)
+        note_case(fam, cfg)
+        if grid:
+            g = sorted(set(thresholds_map(ts, cfg, r)), key=lambda t: Fraction(*t))
+            if len(g) > 6:
+                g = [g[0]] + sorted(r.sample(g[1:-1], 4), key=lambda t: Fraction(*t)) + [g[-1]]
+            runs = []
+            for t in g:
+                c = dict(cfg)
+                c["thr"] = t
+                runs.append((ts, c))
+        else:
+            runs = [(ts, cfg)]
+        cases.append({"runs": runs, "meta": {"stream": "shape-map", "family": fam, "i": i}})
+    return cases
+
+
+# root cause shared by C12-F2 / C02-F2: under remove_empty_shapes a constraint whose chosen alternative refers
+# to a shape that ends up without constraints is deleted outright (and its shape with it, when nothing is left)
+RC_REMOVED_REF = "rc_reference_to_removed_shape"
+
+
+def affected_labels(ts, cfg, doc):
+    """shape labels (expanded) having an instance one of whose non-literal values (direct; incoming with
+    inverse_paths) is an instance of a label / class whose shape is not in the document -- computed from the
+    abstract triples and the oracle's instance sets; empty unless remove_empty_shapes is on"""
+    if not cfg["remove_empty_shapes"]:
+        return set()
+    inst = pipespec.spec_instances(ts, cfg)
+    present = {sh["label"] for sh in doc["shapes"]}
+    gone = lambda node: node[0] != "L" and any(pipespec.shape_label(k, cfg["shapes_ns"]) not in present
+                                              for k in inst.get(node[1], []))
+    out = set()
+    for s, p, o in ts:
+        if p == cfg["tau"]:
+            continue
+        if s[1] in inst and gone(o):
+            out |= {pipespec.shape_label(k, cfg["shapes_ns"]) for k in inst[s[1]]}
+        if cfg["inverse_paths"] and o[0] != "L" and o[1] in inst and s[0] == "I" and gone(s):
+            out |= {pipespec.shape_label(k, cfg["shapes_ns"]) for k in inst[o[1]]}
+    # cascades: a label all of whose constraints were deleted disappears itself, and so on upwards
+    changed = True
+    while changed:
+        changed = False
+        for s, p, o in ts:
+            if p == cfg["tau"] or s[1] not in inst or o[0] == "L" or o[1] not in inst:
+                continue
+            tgt = {pipespec.shape_label(k, cfg["shapes_ns"]) for k in inst[o[1]]}
+            src = {pipespec.shape_label(k, cfg["shapes_ns"]) for k in inst[s[1]]}
+            if tgt & out and not src <= out:
+                out |= src
+                changed = True
+    return out
+
+
+_MSG_LABEL = [(re.compile(r"^shape (\S+) present at threshold"), False),
+              (re.compile(r" of (\S+) present at threshold"), False),
+              (re.compile(r"^threshold 0 omits observed key .* of (\S+)$"), True),
+              (re.compile(r"^class (\S+) lacks key"), True),
+              (re.compile(r"^class (\S+) has \d+ instances and no shape$"), True)]
+
+
+def attribute(fails, affected, shapes_ns=pipe.DEFAULT_SHAPES_NS):
+    """failures of the class-mode oracles that speak of a shape affected by the root cause above get its tag
+    (the message names the shape by its label, or by the key -- class IRI / '<label>' -- it stands for)"""
+    out = []
+    for rc, desc in fails:
+        if rc is None:
+            for rx, is_key in _MSG_LABEL:
+                m = rx.search(desc)
+                if m:
+                    lab = pipespec.shape_label(m.group(1), shapes_ns) if is_key else m.group(1)
+                    if lab in affected:
+                        rc = RC_REMOVED_REF
+                    break
+        out.append((rc, desc))
+    return out
+
+
+def check_keys_map(ts, cfg, doc):
+    """C02's oracle (pipespec.check_keys) on a shape-map run.  Two adjustments, both computed from the data:
+    a label none of whose features reaches the threshold has no constraint, and with remove_empty_shapes its
+    (empty) shape is removed -- the documented effect of that option, not a failure; failures that speak of a
+    shape affected by the reference-to-a-removed-shape root cause carry its tag"""
+    fails, n = pipespec.check_keys(ts, cfg, doc)
+    inst, n_of, exp, nl = pipespec.expected_keys(ts, cfg)
+    thr = Fraction(*cfg["thr"])
+    keep = []
+    for rc, desc in fails:
+        m = re.match(r"^class (\S+) has \d+ instances and no shape$", desc)
+        if m and cfg["remove_empty_shapes"]:
+            c = m.group(1)
+            want = [k for k, fr in exp.get(c, {}).items() if fr >= thr]
+            if not want:
+                continue
+            if rc is None and all(k[2] == "nonliteral" and pipespec.split_nonliteral(ts, cfg, inst, nl, c, k) for k in want):
+                rc = "rc_split_nonliteral"     # C02-F1: every key it should hold is lost to the IRI/BNode split, so the shape is empty
+        keep.append((rc, desc))
+    return attribute(keep, affected_labels(ts, cfg, doc), cfg["shapes_ns"]), n
+
+
+def check_monotone_map(ts, cfgs, docs):
+    """C12's oracle (pipespec.check_monotone) on the runs of one shape-map case at a grid of thresholds"""
+    fails, n = pipespec.check_monotone(ts, cfgs, docs)
+    aff = set()
+    for c, d in zip(cfgs, docs):
+        aff |= affected_labels(ts, c, d)
+    return attribute(fails, aff, cfgs[0]["shapes_ns"]), n
